@@ -111,6 +111,34 @@ pub fn check_list(c: &ListCase) -> CaseResult {
             if c.tail == MV::Null {
                 alts.push(("list", Value::list(elems())));
             }
+            // the same elements from iterators of other shapes: no length hint
+            // at all, a lower bound of zero, an exact length, an over-estimate,
+            // a by-reference iterator of something convertible
+            alts.push(("append-filter-iter", Value::append(elems().into_iter().filter(|_| true), tailv())));
+            alts.push(("append-from_fn", {
+                let mut it = elems().into_iter();
+                Value::append(std::iter::from_fn(move || it.next()), tailv())
+            }));
+            alts.push(("append-chain", {
+                let e = elems();
+                let k = e.len() / 2;
+                let (a, b) = (e[..k].to_vec(), e[k..].to_vec());
+                Value::append(a.into_iter().chain(b.into_iter().skip_while(|_| false)), tailv())
+            }));
+            alts.push(("append-vecdeque", Value::append(elems().into_iter().collect::<std::collections::VecDeque<Value>>(), tailv())));
+            alts.push(("append-rev-rev", Value::append(elems().into_iter().rev().collect::<Vec<_>>().into_iter().rev(), tailv())));
+            alts.push(("append-flat_map", Value::append(elems().into_iter().flat_map(|x| std::iter::once(x)), tailv())));
+            if c.tail == MV::Null {
+                alts.push(("list-filter-iter", Value::list(elems().into_iter().filter(|_| true))));
+                alts.push(("list-take_while", Value::list(elems().into_iter().take_while(|_| true))));
+                alts.push(("list-boxed-dyn", Value::list(Box::new(elems().into_iter()) as Box<dyn Iterator<Item = Value>>)));
+            }
+            if n > 0 {
+                // a list rebuilt from its own traversal (with the tail left after merging)
+                if let Some(it) = l.list_iter() {
+                    alts.push(("append-own-list_iter", Value::append(it.cloned(), tt.to_value())));
+                }
+            }
         }
         if !same(&l, &model_value) {
             return Err((
